@@ -511,7 +511,7 @@ var verifC23decls = []struct {
 	{types.Boolean, true, true, 3}, // [false]
 }
 
-func verifC23process(args []string) *Process {
+func verifC23process(args []string, background bool) *Process {
 	p := new(Process)
 	config.InitConf.Define("proc", "strict-vars", config.Properties{
 		Description: "strict-vars", Default: true, DataType: types.Boolean,
@@ -521,7 +521,7 @@ func verifC23process(args []string) *Process {
 	p.Parameters.DefineParsed(args)
 	p.Scope = p
 	p.Parent = p
-	p.Background.Set(true) // no terminal: a missing mandatory parameter cannot be prompted for
+	p.Background.Set(background)
 	return p
 }
 
@@ -573,7 +573,16 @@ func VerifC23Bind() {
 		}
 	}
 
-	p := verifC23process(args)
+	// foreground or background call. In the foreground a missing mandatory parameter is asked
+	// for on the terminal (outside the claim); in the background it must fail the call.
+	background := rt.Choice("background", 2) == 1
+	if !background {
+		rt.Assume(nargs == k || mfd.Parameters[nargs].Optional)
+	}
+	// known finding: in the background a missing *optional* parameter fails the call
+	verifC23known("C23-optional-in-background", background && nargs < k && mfd.Parameters[nargs].Optional)
+
+	p := verifC23process(args, background)
 	err := mfd.castParameters(p)
 	rt.Reach("cast-returned")
 
@@ -591,7 +600,7 @@ func VerifC23Bind() {
 		case prm.Optional:
 			continue // stays unset
 		default:
-			failAt = i // mandatory and missing, nobody to ask
+			failAt = i // mandatory and missing in the background: nobody to ask
 			continue
 		}
 		if prm.DataType == types.Integer || prm.DataType == types.Number {
